@@ -70,6 +70,10 @@ def type_calls(T, rnd, ids):
     return out
 
 
+FRESH = {"id", "begin_block/-", "begin_block_no_label/-", "begin_function/1/-/0/2", "decoration_group", "string/61", "ext_inst_import/61",
+         "variable/1/-/7/-", "function_parameter/1", "undef/1/-"}
+
+
 def run(ctx):
     with C.Lock():
         T, fails = C.translate_all(ctx)
@@ -128,7 +132,8 @@ def run(ctx):
                 # fails (no block selected) after reserving an id
                 calls.append(rnd.choice(["i_add/1/-/2/3", "load/1/-/2/-/-", "ext_inst/1/-/2/3/-"]))
             else:
-                calls.append(rnd.choice(["decoration_group", "string/61", "ext_inst_import/61", "begin_function/1/-/0/2", "end_function", "begin_block/-", "ret", "variable/1/-/7/-"]))
+                calls.append(rnd.choice(["decoration_group", "string/61", "ext_inst_import/61", "begin_function/1/-/0/2", "end_function", "begin_block/-", "ret", "variable/1/-/7/-",
+                                         "begin_block_no_label/-", "begin_block_no_label/77", "begin_block/88", "function_parameter/1", "undef/1/-", "id"]))
         r = "build " + (f"from:{start} " if start else "") + " ".join(calls)
         reqs.append(r)
         meta[r] = (start or 1, implicit_only)
@@ -163,6 +168,13 @@ def run(ctx):
                         return f"identical implicit request `{c}` returned {idv}, earlier {seen_req[key]}"
                 else:
                     seen_req[key] = idv
+        # fresh ids handed out by calls that allocate one implicitly: strictly increasing from the starting id on
+        last = start - 1
+        for c, o in zip(calls, outs):
+            if c in FRESH and o.startswith("ok:") and o[3:].isdigit():
+                if int(o[3:]) <= last:
+                    return f"`{c}` returned id {o[3:]} which is not above the ids handed out before (last {last})"
+                last = int(o[3:])
         # ids: every id reported by an id-allocating call without explicit id is below the bound
         for c, o in zip(calls, outs):
             if o.startswith("ok:") and o[3:].isdigit() and int(o[3:]) >= bound and int(o[3:]) not in (50, 51, 60, 77, 88, 2):
@@ -179,7 +191,7 @@ def run(ctx):
             tgv = [t for t in dump.split(" ") if t.startswith("s10:")][0][4:]
             decls = [] if tgv == "-" else tgv.split("|")
             # declarations = entries with a result id (forward pointers, line info and raw insertions have none and may repeat)
-            keys = [(d.split(";")[0], d.split(";")[3]) for d in decls if d.split(";")[2] != "-" and not d.startswith("43;") and not d.startswith("41;") and not d.startswith("46;") and not d.startswith("59;")]
+            keys = [(d.split(";")[0], d.split(";")[3]) for d in decls if d.split(";")[2] != "-" and not d.startswith("43;") and not d.startswith("41;") and not d.startswith("46;") and not d.startswith("59;") and not d.startswith("1;")]
             if len(keys) != len(set(keys)):
                 return "two identical type declarations in a module whose types were all requested implicitly"
         return None
